@@ -22,9 +22,11 @@ import (
 )
 
 type inv struct {
-	Set     string      `json:"set"`
-	H       int         `json:"h"`
-	ArgsID  uint64      `json:"argsId"`
+	Set     string `json:"set"`
+	H       int    `json:"h"`
+	ArgsID  uint64 `json:"argsId"`
+	Slots   []int  `json:"slots"` // the argument array's whole capacity as ranks of slot addresses (per line)
+	slotAd  []uint64
 	TagsID  uint64      `json:"tagsId"`
 	Args    []string    `json:"args"`
 	HasTags bool        `json:"hasTags"`
@@ -98,6 +100,12 @@ func RunCopies(args []string) int {
 			if len(l.Args) > 0 {
 				v.ArgsID = uint64(uintptr(unsafe.Pointer(unsafe.SliceData(l.Args))))
 			}
+			if c := cap(l.Args); c > 0 && c <= 4096 {
+				full := l.Args[:c]
+				for i := range full {
+					v.slotAd = append(v.slotAd, uint64(uintptr(unsafe.Pointer(&full[i]))))
+				}
+			}
 			if l.Tags != nil {
 				v.TagsID = uint64(reflect.ValueOf(l.Tags).Pointer())
 			}
@@ -109,6 +117,7 @@ func RunCopies(args []string) int {
 			for i := range l.Args {
 				l.Args[i] = fmt.Sprintf("scribbled-by-%s%d", set, h)
 			}
+			l.Args = append(l.Args, fmt.Sprintf("appended-by-%s%d", set, h))
 			if l.Tags != nil {
 				for k := range l.Tags {
 					l.Tags[k] = "scribbled"
@@ -186,6 +195,27 @@ func RunCopies(args []string) int {
 		}
 		mu.Lock()
 		expected = expectedOf[verb]
+		// slot addresses -> ranks among all slot addresses of this line's invocations (an order-preserving
+		// renaming: TLC's integers are 32 bit; disjointness is decided by CopiesTrace)
+		{
+			var all []uint64
+			for _, v := range cur[raw] {
+				all = append(all, v.slotAd...)
+			}
+			sort.Slice(all, func(i, j int) bool { return all[i] < all[j] })
+			rank := map[uint64]int{}
+			for _, a := range all {
+				if _, ok := rank[a]; !ok {
+					rank[a] = len(rank) + 1
+				}
+			}
+			for i := range cur[raw] {
+				cur[raw][i].Slots = []int{}
+				for _, a := range cur[raw][i].slotAd {
+					cur[raw][i].Slots = append(cur[raw][i].Slots, rank[a])
+				}
+			}
+		}
 		r := rec{Raw: raw, Args: latin(ref.Args), HasTags: ref.Tags != nil, Tags: tagList(ref.Tags), Expected: expected, Invs: cur[raw]}
 		invocations += expected
 		delete(cur, raw)
